@@ -498,6 +498,10 @@ def align_variable_names_with_convention(
 
     transaction = 0
     for substitute, nodes in substitute_node_renamings.items():
+        old_names = {node.id if isinstance(node, ast.Name) else node.name for node in nodes}
+        if len(old_names) > 1:
+            continue  # Two different names, e.g. fooBar and FooBar, must not become the same name
+
         replacements = []
         for node in nodes:
             if isinstance(node, ast.Name):
